@@ -105,6 +105,14 @@ let handle (toks : string list) : string =
     let sh = bytes_of_hex sh and sg = bytes_of_hex sg in
     let sign _ h = if h = sh then sg else failwith "oracle-miss sign" in
     hex_of_bytes (encode_packet keccak256 sign (bool_of_tok nc) [] (n_of_string ptype) (msg_of msg))
+  | ["hs"; ack; stream; pl; e8] ->
+    let ack = bool_of_tok ack in
+    let dec_plain _ = if pl = "none" then None else Some (bytes_of_hex pl) in
+    let dec_eip8 _ _ = if e8 = "none" then None else Some (bytes_of_hex e8) in
+    let (c, n) = read_handshake_msg dec_plain dec_eip8 (if ack then ack_body_ok else auth_body_ok)
+        (if ack then enc_auth_resp_len else enc_auth_msg_len) (bytes_of_hex stream) in
+    (match c with HShort -> "short" | HPlain -> "ok-plain" | HUnderflow -> "underflow"
+                | HDecryptErr -> "err" | HBadBody -> "err" | HOk -> "ok") ^ " " ^ dec n
   | ["decmsg"; t; body] ->
     (match dec_msg (n_of_string t) (bytes_of_hex body) with
      | None -> "err" | Some m -> "ok " ^ kind_of m ^ " " ^ hex_of_bytes (encode_msg m))
